@@ -79,7 +79,7 @@ class DefAssign:
                 if len(inner) != 1:
                     raise AnalysisError('unrecognised construct: decorator %s has no single wrapper' % name)
                 out.append((inner[0], wrapped))
-            elif name in ('staticmethod', 'classmethod', 'property'):
+            elif name in ('staticmethod', 'classmethod', 'property', 'contextlib.contextmanager', 'contextmanager'):
                 continue
             else:
                 raise AnalysisError('unrecognised construct: decorator %s on KmipEngine.%s' % (name, fn.name))
